@@ -616,3 +616,139 @@ func VH19e_inherit() {
 
 var tranList = []struct{ name, addr string }{{"tcp", "tcp://127.0.0.1:5555"}, {"tlstcp", "tls+tcp://127.0.0.1:5556"}, {"ws", "ws://127.0.0.1:5557/x"},
 	{"wss", "wss://127.0.0.1:5558/x"}, {"inproc", "inproc://inh"}, {"ipc", "ipc:///tmp/verif-inh.sock"}}
+
+// VH19f_queues: the two queue-length options are independent and take effect:
+// how many messages a socket takes for a stalled peer depends on WRITEQ-LEN
+// only, how many arrivals it holds for a slow application on READQ-LEN only,
+// and one more slot holds one more message. Metamorphic: the same scenario is
+// run on fresh sockets with (r,w) = (1,3), (4,3), (1,1) / (3,1), (3,4), (1,1)
+// and the counts are compared - no per-pattern table of expected numbers.
+func VH19f_queues() {
+	pi := verif.Param("proto", 0)
+	proto := vp.Names[pi]
+	lab := "C19/queues/" + proto
+	vt.Install()
+	n := 0
+	mk := func(r, w int) (mangos.Socket, *vt.Pipe, bool) {
+		sock := vp.New(proto)
+		okR := sock.SetOption(mangos.OptionReadQLen, r) == nil
+		okW := sock.SetOption(mangos.OptionWriteQLen, w) == nil
+		if proto == "sub" {
+			sock.SetOption(mangos.OptionSubscribe, []byte{})
+		}
+		n++
+		side := vt.Listen(sock, "q"+string(rune('0'+n)))
+		return sock, side.Peer("p"), okR || okW
+	}
+	if verif.Choice("dir", 2) == 0 {
+		// sending side: peer stalled, 8 sends; (completed before the first one blocks, transmitted once the peer drains)
+		measure := func(r, w int) (int, int, bool) {
+			sock, p, ok := mk(r, w)
+			if !ok {
+				return 0, 0, false
+			}
+			var route []byte
+			if proto == "xrep" || proto == "xrespondent" {
+				// raw REP / RESPONDENT route on the header of a request that really arrived
+				p.Deliver([]byte{0x80, 0, 0, 1, 'q'})
+				verif.Quiesce()
+				rm, rerr := sock.RecvMsg()
+				if rerr != nil {
+					return 0, 0, false
+				}
+				route = append(route, rm.Header...)
+				rm.Free()
+			}
+			p.SendMode = vt.SendBlock
+			done := 0
+			for i := 0; i < 8; i++ {
+				m := mangos.NewMessage(2)
+				m.Body = append(m.Body, 'm', byte('0'+i))
+				m.Header = append(m.Header, route...)
+				switch proto {
+				case "xpair1", "xstar":
+					m.Header = append(m.Header, 0, 0, 0, 0)
+				case "xreq", "xsurveyor":
+					m.Header = append(m.Header, 0x80, 0, 0, 1)
+				}
+				var err error
+				g := verif.Go("send", func() { err = sock.SendMsg(m) })
+				verif.Quiesce()
+				if !g.Done() {
+					break
+				}
+				if err != nil {
+					return 0, 0, false // pattern cannot send (or needs a request first)
+				}
+				done++
+			}
+			p.SendMode = vt.SendOK
+			for i := 0; i < 10; i++ {
+				p.Release()
+			}
+			verif.Quiesce()
+			tx := len(p.Sent)
+			sock.Close()
+			verif.Quiesce()
+			return done, tx, true
+		}
+		d1, t1, ok1 := measure(1, 3)
+		if !ok1 {
+			verif.Assume(false)
+		}
+		d2, t2, _ := measure(4, 3)
+		d3, t3, _ := measure(1, 1)
+		verif.Assert(d1 == d2 && t1 == t2, lab+"/messages-taken-for-a-stalled-peer-depend-on-READQ-LEN")
+		if proto != "req" && proto != "surveyor" {
+			// (REQ keeps one request, SURVEYOR one survey: no send queue to speak of)
+			verif.Assert(d1+t1 > d3+t3 || (d1 == 8 && t1 == 8), lab+"/larger-WRITEQ-LEN-takes-no-more-messages")
+		}
+		verif.Reach("send-queues")
+		return
+	}
+	// receiving side: 8 arrivals while the application is not receiving, then receive until it would block
+	measure := func(r, w int) (int, bool) {
+		sock, p, ok := mk(r, w)
+		if !ok {
+			return 0, false
+		}
+		for i := 0; i < 8; i++ {
+			switch proto {
+			case "rep", "xrep", "respondent", "xrespondent", "xreq", "xsurveyor":
+				p.Deliver([]byte{0x80, 0, 0, byte(i + 1), 'm', byte('0' + i)})
+			case "pair1", "xpair1", "star", "xstar":
+				p.Deliver([]byte{0, 0, 0, 0, 'm', byte('0' + i)})
+			default:
+				p.Deliver([]byte{'m', byte('0' + i)})
+			}
+			verif.Quiesce()
+		}
+		got := 0
+		for i := 0; i < 9; i++ {
+			var err error
+			g := verif.Go("recv", func() { _, err = sock.RecvMsg() })
+			verif.Quiesce()
+			if !g.Done() {
+				break
+			}
+			if err != nil {
+				return 0, false // pattern cannot receive (or needs a request first)
+			}
+			got++
+		}
+		sock.Close()
+		verif.Quiesce()
+		return got, true
+	}
+	g1, ok1 := measure(3, 1)
+	if !ok1 {
+		verif.Assume(false)
+	}
+	g2, _ := measure(3, 4)
+	g3, _ := measure(1, 1)
+	verif.Assert(g1 == g2, lab+"/arrivals-held-for-the-application-depend-on-WRITEQ-LEN")
+	if proto != "rep" && proto != "respondent" && proto != "req" && proto != "surveyor" {
+		verif.Assert(g1 > g3 || g1 == 8, lab+"/larger-READQ-LEN-holds-no-more-arrivals")
+	}
+	verif.Reach("recv-queues")
+}
